@@ -179,8 +179,8 @@ pub fn check_case(c: &Case) -> Check {
                     .into_iter()
                     .enumerate()
                     {
-                        // a third of the templates per case (which third depends on the case)
-                        if (fp + ti) % 3 != 0 {
+                        // a quarter of the templates per case (which ones depends on the case)
+                        if (fp + ti) % 4 != 0 {
                             continue;
                         }
                         let (r, pf) = front::eval_text(&text, None).map_err(|e| viol(format!("`{}` rejected: {}", text, e), &cj))?;
